@@ -17,7 +17,7 @@ func (r *Rec) Rapid(t *testing.T, name string, total int, prop func(t *rapid.T))
 	r.mu.Unlock()
 	if t.Failed() && !pending && r.Violations() == 0 {
 		// rapid failed without the property having called Fail (panic inside the code under test, generator trouble)
-		r.Violate(name, "rapid reported a failure (panic or generator error); see log", map[string]any{"sub": name, "seed": Seed()})
+		r.Violate(name, "the testing package reported a failure without a failing case: a panic inside the code under test or a data race report (race detector on); see the shard log", map[string]any{"sub": name, "seed": Seed()})
 	}
 	r.Commit()
 }
